@@ -731,25 +731,32 @@ func runC08(c *Ctx) {
 	if put != nil && val != nil {
 		c.sawFn(fnName(put))
 		var refusal *ssa.If
+		refEdge := 0
 		allInstrs(put, func(in ssa.Instruction) {
 			iff, ok := in.(*ssa.If)
 			if !ok {
 				return
 			}
-			cm, ok := edgeCmp(iff, 0)
-			if !ok {
-				return
-			}
-			arg, isSz := isSizeOfCall(cm.X)
-			if isSz && sameV(arg, val) && isLoad(cm.Y, limitF) && cm.Op == token.GTR {
-				refusal = iff
+			// the edge on which sizeOf(val) > limit, whichever way round the test is written
+			for e := 0; e < 2; e++ {
+				cm, ok := edgeCmp(iff, e)
+				if !ok {
+					continue
+				}
+				if _, isSz := isSizeOfCall(cm.Y); isSz {
+					cm = Cmp{cm.Y, cm.X, flipOp(cm.Op)}
+				}
+				arg, isSz := isSizeOfCall(cm.X)
+				if isSz && sameV(arg, val) && isLoad(cm.Y, limitF) && cm.Op == token.GTR {
+					refusal, refEdge = iff, e
+				}
 			}
 		})
 		if refusal == nil {
 			c.bad("R-LIMIT-LOOP", "cache.(*Cache).Put:refusal", put.Pos(), "no `sizeOf(val) > limit ⇒ return false` test found")
 		} else {
 			var probs []string
-			tb := refusal.Block().Succs[0]
+			tb := refusal.Block().Succs[refEdge]
 			// true edge returns false with no effects
 			w := walkFrom(tb.Instrs[0], true, nil)
 			for _, in := range w.order {
@@ -771,7 +778,7 @@ func runC08(c *Ctx) {
 				}
 			}
 			// every effect in Put is dominated by the false edge
-			fb := refusal.Block().Succs[1]
+			fb := refusal.Block().Succs[1-refEdge]
 			allInstrs(put, func(in ssa.Instruction) {
 				eff := false
 				if n, _ := invokeName(in); n == "Remove" || n == "Evict" || n == "Store" {
